@@ -565,6 +565,23 @@ def run(prog: Program) -> Results:
     for f in prog.all_functions():
         if not f.module.startswith("nix_manipulator/expressions/"):
             continue
+        if "select" in f.name and "between" in f.name:
+            # the shared selector behind every collector: its lower bound must be inclusive however the test is written
+            for lc in [n for n in walk_no_nested(f.node) if isinstance(n, (ast.ListComp, ast.GeneratorExp))]:
+                elem = lc.generators[0].target.id if isinstance(lc.generators[0].target, ast.Name) else None
+                for cond in lc.generators[0].ifs:
+                    for c in ast.walk(cond):
+                        if isinstance(c, ast.Compare) and len(c.ops) == 1 and all(isinstance(x, ast.Attribute) for x in [c.left, c.comparators[0]]):
+                            l, rgt, op = c.left, c.comparators[0], c.ops[0]
+                            strict = (isinstance(op, ast.Gt) and l.attr == "start_byte" and norm(l.value) == elem and rgt.attr == "end_byte") or \
+                                     (isinstance(op, ast.Lt) and l.attr == "end_byte" and rgt.attr == "start_byte" and norm(rgt.value) == elem)
+                            if strict:
+                                r13.instances += 1
+                                r13.ob(False, {"site": f.key, "filter": norm(c)})
+                                res.add("R-C03-13", (f.key, "comment window open at its start anchor", alpha(c, f.node, anonymous=True)[:60]), f.loc(c),
+                                        f"{f.key}: `{norm(c)}` excludes a comment that starts exactly where the start anchor ends: every "
+                                        f"collector built on this selector drops a comment written directly against the preceding token "
+                                        f"(`if c/* b */ then …`, `with/* a */ pkgs; …`)")
         for c in walk_no_nested(f.node):
             if not (isinstance(c, ast.Compare) and len(c.ops) == 2 and all(isinstance(x, ast.Attribute) and x.attr in ("start_byte", "end_byte")
                                                                             for x in [c.left] + c.comparators)):
